@@ -71,7 +71,8 @@ type ExprGen struct {
 // DefaultCols is the standard schema of the expression checks.
 func DefaultCols() map[Ty][]Ident {
 	return map[Ty][]Ident{
-		TInt:  {{Name: "ia"}, {Name: "ib"}, {Name: "i c", Quoted: true}},
+		// `$left` and `$right` are ordinary column names when quoted
+		TInt:  {{Name: "ia"}, {Name: "ib"}, {Name: "i c", Quoted: true}, {Name: "$left", Quoted: true}, {Name: "$right", Quoted: true}},
 		TStr:  {{Name: "sa"}, {Name: "sb"}},
 		TBool: {{Name: "ba"}, {Name: "bb"}},
 		TArr:  {{Name: "ma"}},
